@@ -498,6 +498,39 @@ fn main() {
     ctx.rule("E1: 1-D meshes with 2..6 nodes and EVERY spacing word over {1/4,1/2,1,2} (2..7 nodes quick / 2..9 thorough), up to 12 nodes with every <=2 (quick) / <=3 (thorough) deviation word from uniform, a second family with spacings {3/4,3/2,1} (rounding tolerance), 1..4 variables, two integer-valued data patterns: every access path, interpolation at every node / mid-cell / quarter / eighth points (never within 1e-6 of a node except at it), trapezium = cell sum and exact on linear data, output->read round trip at precisions 3, 6, 12; 2-D meshes over all pairs of node counts 2..8 (quick) / 2..12 (thorough) with three spacing words each: every access path, both cross-section orientations, var_as_matrix, apply, assign, trapezium/square_trapezium = cell sums, exact on bilinear data. E2: BFS over write histories (set_nodes_vars, index writes, assign, apply) on 2x3 and 3x2 meshes, the real object rebuilt by replaying each history, all views re-checked in every state. Non-trivial: non-uniform grids, interpolation at the last node, non-square 2-D meshes.");
     ctx.assume("nodal data are integer-valued / dyadic so that f64 results are exact on power-of-two grids");
     ctx.require(&["non-uniform grid", "interpolations at a node", "interpolations inside a cell", "non-square 2-D mesh", "non-square mesh state", "apply in a history", "round trip", "index write after interpolation queries", "1-D history of >= 2 writes"]);
+    // integer-valued nodal data that is large next to its neighbour (right - left is rounded): the nodes must still give back
+    // what was stored, the last node included (it is reached with t = 1 of the last cell)
+    {
+        let bl = [1.0, 3.0, -(2f64.powi(53)), 2f64.powi(53) + 2.0, 2f64.powi(60), -(2f64.powi(62)) + 1024.0];
+        let grids: Vec<Vec<f64>> = vec![vec![0.0, 1.0], vec![-1.0, 0.5], vec![0.0, 0.75, 1.0], vec![0.0, 0.25, 1.0, 3.0], vec![-2.0, -1.5, 0.0, 0.125, 7.0]];
+        for nodes in grids {
+            let n = nodes.len();
+            ctx.lattice(
+                &format!("nodal reproduction, integer data up to 2^62 next to small neighbours: grid {:?}, every data word over {{1,3,-2^53,2^53+2,2^60,-2^62+1024}}", nodes),
+                pow(bl.len() as u64, n as u32),
+                |idx| format!("{}", idx),
+                |idx, acc| {
+                    let mut d = vec![0usize; n];
+                    digits_uniform(idx, bl.len() as u64, &mut d);
+                    let data: Vec<f64> = d.iter().map(|&k| bl[k]).collect();
+                    if data.iter().any(|v| v.abs() >= 2f64.powi(53)) && data.iter().any(|v| v.abs() < 4.0) {
+                        acc.nontriv("large and small integers on one mesh");
+                    }
+                    judge(acc, idx, || format!("grid {:?} data {:?}", nodes, data), || {
+                        let mut m = Mesh1D::<f64, f64>::new(Vector::create(nodes.clone()), 1);
+                        for i in 0..n {
+                            m[i][0] = data[i];
+                        }
+                        for i in 0..n {
+                            let g = m.get_interpolated_vars(nodes[i]);
+                            ensure!(g.size() == 1 && g[0] == data[i], "interpolation at node {} (x = {}) = {:?} but the stored value is {:?}", i, nodes[i], g.vec, data[i]);
+                        }
+                        Ok(())
+                    });
+                },
+            );
+        }
+    }
     // 1-D exhaustive spacing words
     for n in 2..=ctx.pick(7, 9) {
         let words = pow(4, (n - 1) as u32);
